@@ -200,6 +200,7 @@ def run(repo: Repo, rep: Report, tier: str) -> None:
     rep.floor("R06.5", 1)
     _dataclass_rules(repo, rep)
     _enum_literal(repo, rep)
+    _derive_scope(repo, rep)
     _namedtuple_sibling(repo, rep)
 
 
@@ -256,6 +257,31 @@ def _dataclass_rules(repo: Repo, rep: Report) -> None:
                           "dataclass share one definition: the later one overwrites the earlier and both $refs point to it", loc=fi.loc)
         else:
             rep.ok("R06.7", f"definitions keyed by `{kt}`", None)
+
+
+def _derive_scope(repo: Repo, rep: Report) -> None:
+    """R06.10: field-level overrides (metadata: serialize=..., alias, description) belong to the field's own Instance.
+    Instance.derive(type=<element type>) keeps `name` and the owner builder (dataclasses.replace), and `metadata` is
+    recomputed from (owner, name): unless derive cuts one of the two, the element instances see the field's
+    `serialize` callable again and on_type_with_overridden_serialization re-applies its return type at every level."""
+    fi = repo.func(M_SCHEMA, "Instance.derive")
+    cut = False
+    for n in walk_no_nested(fi.node):
+        t = ast.unparse(n) if isinstance(n, (ast.Assign, ast.Call, ast.AugAssign)) else ""
+        if isinstance(n, ast.Assign) and any(k in ast.unparse(n.targets[0]) for k in ("name", "metadata")):
+            cut = True
+        if isinstance(n, ast.Call) and isinstance(n.func, ast.Attribute) and n.func.attr in ("setdefault", "pop", "update") and ("name" in t or "metadata" in t or "serialize" in t):
+            cut = True
+    meta = " ".join(ast.unparse(repo.func(M_SCHEMA, "Instance.metadata").node).split())
+    if "self.name and self.__owner_builder" not in meta and "_Instance__owner_builder" not in meta:
+        rep.undecide("R06.10", "Instance.metadata is no longer derived from (owner builder, name)")
+        return
+    if cut:
+        rep.ok("R06.10", "Instance.derive cuts the field-level metadata for element instances", None)
+    else:
+        rep.violation("R06.10", fi.key, "element instances derived from a field inherit the field's metadata (serialize override)",
+                      "a field with a callable `serialize` option whose return annotation is a container gets that container type re-applied to its own items at every level: "
+                      "the schema nests until the recursion limit and rejects what the serializer emits", loc=fi.loc)
 
 
 def _enum_literal(repo: Repo, rep: Report) -> None:
